@@ -780,6 +780,7 @@ class Interp:
         self.loop_havoc(st, env, spec)
         self.assume_invariants(spec, env)
         dec0 = self.eval_spec(spec.decreases, env) if spec.decreases else None
+        prog0 = self.eval_spec_value(spec.progress, env) if getattr(spec, 'progress', None) else None
         if self.truth(self.eval(st.test, env)):
             try:
                 self.exec_block(st.body, env)
@@ -788,6 +789,10 @@ class Interp:
             except ContinueEx:
                 pass
             self.check_invariants(spec, env, 'preserved')
+            if prog0 is not None:
+                prog1 = self.eval_spec_value(spec.progress, env)
+                self.oblige('%s::loop%s.every-pass-makes-progress' % (self.cur_func_name(), spec.ordinal),
+                            to_term(prog1, 'int') > to_term(prog0, 'int'), kind='decreases')
             if dec0 is not None:
                 dec1 = self.eval_spec(spec.decreases, env)
                 self.oblige('%s::loop%s.decreases' % (self.cur_func_name(), spec.ordinal),
@@ -1500,6 +1505,10 @@ class Interp:
             sub = obj.name + '.' + name
             if self.find_source(sub) is not None or sub in self.ext_modules:
                 return self.load_module(sub)
+            if obj.path is None and not name.startswith('__'):
+                # a member of a MODELLED (external / standard-library) module that the model does not cover: the real module
+                # may well have it - that is a limit of this verifier, never an AttributeError of the program
+                raise Unsupported('%s.%s is not modelled' % (obj.name, name))
             return _MISSING
         if isinstance(obj, ClassObj):
             if name == '__members__' and obj.is_enum:
